@@ -115,6 +115,8 @@ def _match_brace(t, i):
 
 def _parse_atom(part):
     part = part.strip()
+    # a named compile-time boolean substituted into a comparison arrives in parentheses: (is_signed_v<T_To>) == (is_signed_v<T_From>)
+    part = re.sub(r"\(\s*(" + S_ + r"is_(?:un)?signed_v<T_(?:To|From)>)\s*\)", r"\1", part)
     m = re.fullmatch(r"!\s*\((.*)\)", part, flags=re.S)
     if m and "&&" not in m.group(1) and "||" not in m.group(1):
         return "(.not " + _paren(_parse_atom(m.group(1))) + ")"
